@@ -26,8 +26,8 @@ def rb(n):
 
 
 comp = Component("session-keys-with-real-primitives",
-                 "plaintext lengths 0..48 and random up to 300 x keys made by BeaconKeys(aes, hmac, iv) / from_aes_rand(rand, iv=) / "
-                 "from_beacon_metadata(md, iv=) / the same with the default IV, handed to encrypt_packet / decrypt_packet by keyword and positionally; ciphertext == hand-chained AES-128-CBC of plaintext + "
+                 "plaintext lengths 0..48 and random up to 300 x keys made by BeaconKeys(aes, hmac, iv) (AES keys of 16 / 24 / 32 bytes, HMAC keys of 1..100 bytes) / from_aes_rand(rand, iv=) / "
+                 "from_beacon_metadata(md, iv=) / the same with the default IV, handed to encrypt_packet / decrypt_packet by keyword and positionally; ciphertext == hand-chained AES-CBC of plaintext + "
                  "'A' padding under the CONFIGURED iv, signature == HMAC-SHA256[:16]; decrypt returns plaintext + 1..16 'A'; any one-bit "
                  "change of ciphertext / signature / HMAC key, or no HMAC key, raises ValueError; 400 cases quick / 6000 thorough")
 N = 400 if TIER == "quick" else 6000
@@ -35,13 +35,16 @@ for i in range(N):
     n = i % 49 if i < 200 else rng.randrange(0, 300)
     pt = rb(n)
     rand = rb(16)
+    if i % 7 == 0:
+        rand = rand[:rng.randrange(0, 16)].ljust(16, b"\x00")       # random bytes that end in NULs (also all zero)
     iv = rb(16)
     how = i % 5
     dig = hashlib.sha256(rand).digest()
     md = BeaconMetadata()
     md.aes_rand = rand
     if how == 0:
-        aes, hm = rb(16), rb(16)
+        # the API takes an HMAC key of any length (HMAC is defined for every key length), the AES key 16 / 24 / 32 bytes
+        aes, hm = rb(rng.choice([16, 16, 24, 32])), rb(rng.choice([16, 32, 20, 1, 64, 65, 100]))
         keys, want_iv = BeaconKeys(aes, hm, iv), iv
     elif how == 1:
         keys, want_iv, aes, hm = BeaconKeys.from_aes_rand(rand, iv=iv), iv, dig[:16], dig[16:]
@@ -76,7 +79,7 @@ for i in range(N):
             bit = 1 << rng.randrange(8)
             ct2 = bytearray(pkt.ciphertext); ct2[rng.randrange(len(ct2))] ^= bit
             sg2 = bytearray(pkt.signature); sg2[rng.randrange(16)] ^= bit
-            hk2 = bytearray(hm); hk2[rng.randrange(16)] ^= bit
+            hk2 = bytearray(hm); hk2[rng.randrange(len(hk2))] ^= bit
             for what, p2, hk in (("ciphertext", EncryptedPacket(bytes(ct2), pkt.signature), hm), ("signature", EncryptedPacket(pkt.ciphertext, bytes(sg2)), hm),
                                  ("hmac key", pkt, bytes(hk2)), ("no hmac key", pkt, None), ("empty hmac key", pkt, b"")):
                 try:
